@@ -347,8 +347,14 @@ theorem rloopWith_frame (run : St → Res) (hrun : FrameOK run) (runElse : Optio
     have hv : ∀ pl po k, getVar (s.pre pl po k).c.vars name = getVar s.c.vars name := fun _ _ _ => rfl
     cases hgv : getVar s.c.vars name with
     | none =>
-      refine ⟨h, fun pl po k => ?_⟩
-      rw [hv, hgv]; rfl
+      cases hel : runElse with
+      | none =>
+        refine ⟨h, fun pl po k => ?_⟩
+        rw [hv, hgv]; rfl
+      | some re =>
+        obtain ⟨e1, e2⟩ := helse re hel s h
+        refine ⟨e1, fun pl po k => ?_⟩
+        rw [hv, hgv]; exact e2 pl po k
     | some vv =>
       simp only
       have lf := rloopLoop_frame run hrun ls (loopItems vv sub) 0 s h
